@@ -16,9 +16,8 @@ CHECK = dict(
           "boundaries; a misbehaving node returning duties of un-asked validators and a proposer duty with a wrong pubkey for a known index) x "
           "start slot in {first, second, last} of an epoch x every placement of <=1 (quick) / <=2 (thorough) failing calls among the first 16 "
           "calls to validators/attester/proposer/sync duties x {no slow call, one of the first 16 calls taking 1.5 / 2.5 / 3.5 slots (late and "
-          "skipped ticks)} x chain-reorg event {none; thorough: 5 s into run slot 2, 3 or 7, delivered to HandleChainReorgEvent (feature on) and to the duties "
-          "cache; quick: the same three only in otherwise undisturbed "
-          "scripts}; 4 slots/epoch, 12 s slots, 12 slots per run, cluster validators 1,2 active, 3 activating at the third epoch, 4 exited, "
+          "skipped ticks)} x chain-reorg event {none; 5 s into run slot 2, 3 or 7, delivered to HandleChainReorgEvent (feature on) and to the duties "
+          "cache}; 4 slots/epoch, 12 s slots, 12 slots per run, cluster validators 1,2 active, 3 activating at the third epoch, 4 exited, "
           "foreign validator 9",
     trusted="testing/synctest virtual time; the stub answers exactly for the indices/pubkeys it is asked about; map iteration rotation and "
             "select order pinned (runtime overlay: receive cases polled in source order) so that a script replays identically up to the order "
